@@ -51,12 +51,12 @@ CHECKS = {
 
  "C18": ("E1 ring model + E6 OS fault harness", "exploration",
    "stateful property testing against /proc observations; fault injection in child processes (RLIMIT_AS, map-count exhaustion)",
-   "Generated create/use/drop histories of up to 200 buffers over 1-8 threads must return the count of deleted-file mappings and of descriptors to the baseline; the mapping layout and byte-for-byte aliasing of the halves is checked for every offset; the set-up table (element kinds x valid/invalid/huge sizes up to 2^63-4096, where the kernel may refuse at ftruncate or mmap) is enumerated and extended by generated sizes; mapping failures injected in child processes must surface as Err without leaks.",
+   "Generated create/use/drop histories of up to 200 buffers over 1-8 threads must return the count of deleted-file mappings and of descriptors to the baseline; the mapping layout and byte-for-byte aliasing of the halves is checked for every offset; the set-up table (element kinds x valid/invalid/huge sizes up to 2^63-4096, where the kernel may refuse at ftruncate or mmap) is enumerated and extended by generated sizes and by elements of 1-6 pages; mapping failures injected in child processes must surface as Err without leaks.",
    "only stream-attributable /proc entries are counted; single-threaded check; injected faults are ENOMEM from RLIMIT_AS and vm.max_map_count", "DESIGN.md §5 C18"),
 
  "C17": ("E6 OS fault harness", "fault_enumeration",
    "model-based testing of open modes (enumerated) + crash-point enumeration (file inspected after every work() return, generated batch sizes / sample types / stream sizes) + crash-point fault injection (SIGKILL of a child process at generated points, prefix/acknowledgement oracle)",
-   "All 54 combinations of mode x initial file state x sink kind are enumerated against a model of the documented modes; a child process streams seeded data through the sink and acknowledges consumed counts after every work(); it is SIGKILLed after a generated number of acknowledgements plus a generated spin, and the file must be a prefix of the serialised stream at least as long as what was acknowledged; in-process, the file is read through a second descriptor after every work() return (what a kill at that instant leaves) for FileSink<u8|f32|Complex|u32> with batches of 1-200 000 samples on 8 KiB-4 MB streams.",
+   "All 54 combinations of mode x initial file state x sink kind are enumerated against a model of the documented modes; a child process streams seeded data through the sink and acknowledges consumed counts after every work(); it is SIGKILLed after a generated number of acknowledgements plus a generated spin, and the file must be a prefix of the serialised stream at least as long as what was acknowledged; in-process, the file is read through a second descriptor after every work() return (what a kill at that instant leaves) for FileSink<u8|f32|Complex|u32> with batches of 1-200 000 samples on 8 KiB-4 MB streams; crash points inside a call: FIFO destination drained in pieces (consumed <= read + pipe capacity at every observation) and /dev/full (a failed write consumes nothing).",
    "process death, not power loss; root user (structural instead of permission-based failures); kill instants sampled, oracle valid for any instant", "DESIGN.md §5 C17"),
 
  "C03": ("E4 schedule explorer", "exploration",
@@ -78,7 +78,7 @@ CHECKS = {
    "balanced diamonds only; blocks chunking-invariant (C08)", "DESIGN.md §5 C06"),
  "C07": ("E4 schedule explorer + E5 graph generator", "exploration",
    "fault-injecting, schedule-exploring property testing (cancellation at generated scheduling points; failing wrapper block at generated position/call; both runners)",
-   "Both runners execute generated graphs on the shuttle runtime while a canceller task cancels after a generated number of scheduling points, or a wrapper block fails on its k-th call; cancel => run() returns Ok with <= 1 further work() call per block and all MT blocks dropped; fail => run() returns an Err carrying the injected marker; panics, Ok, other errors and non-return are violations.",
+   "Both runners execute generated graphs on the shuttle runtime while a canceller task cancels after a generated number of scheduling points, or a wrapper block fails on its k-th call, or both at once (the failing call passes scheduling points while the canceller runs); cancel => run() returns Ok with <= 1 further work() call per block and all MT blocks dropped; fail => run() returns an Err carrying the injected marker; panics, Ok, other errors and non-return are violations.",
    "bounded liveness; if the failing block never reaches call k nothing is injected", "DESIGN.md §5 C07"),
 
  "C11": ("E2 drip-feed driver + E3 reference models", "exploration",
